@@ -10,6 +10,7 @@ using namespace vg;
 
 static bool gThorough = false;
 static std::string gPass;
+static bool gSanThorough = false;
 
 static Spec scaled(const Spec &s, long long sx, long long sy, long long tx, long long ty) {
   Spec r = s;
@@ -134,7 +135,7 @@ static void enumerateAll(const std::function<void(const Spec &)> &f) {
   {
     int i = 0;
     enumerateGpBase(gThorough ? 1 : 0, [&](const Spec &s, const GpShape &) {
-      bool pick = gThorough ? true : (i % 5 == 0);
+      bool pick = gThorough ? true : (gSanThorough ? (i % 2 == 0) : (i % 5 == 0));
       ++i;
       if (pick) emit(s, gThorough, true, gThorough && (i % 16 == 1));
     });
@@ -195,8 +196,11 @@ static vf::Verdicts eval(const Spec &s, vf::Ctx &ctx) {
 
 int main(int argc, char **argv) {
   vf::Opts o = vf::parseOpts(argc, argv);
-  gThorough = o.thorough();
   gPass = o.pass;
+  // the sanitizer pass is about ten times slower: in the thorough tier it explores the quick alphabet plus half of the
+  // global-placement alphabet; the dbg and rel passes explore the full thorough alphabet
+  gThorough = o.thorough() && o.pass != "san";
+  gSanThorough = o.thorough() && o.pass == "san";
   vf::Check<Spec> c;
   c.property = "C07";
   c.level = "exploration";
